@@ -4,8 +4,10 @@ from vf import Stage
 PACKET = Stage(
     family="packet",
     reset_ev="NewW",
-    mc={"quick": [("MC_Packet.tla", "MC_Packet_quick.cfg", "pass")],
-        "thorough": [("MC_Packet.tla", "MC_Packet.cfg", "pass")]},
+    mc={"quick": [("MC_Packet.tla", "MC_Packet_quick.cfg", "pass"),
+                  ("Compose_WirePacket.tla", "MC_WirePacket.cfg", "pass"), ("Compose_WirePacket.tla", "MC_WirePacket_neg.cfg", "fail")],
+        "thorough": [("MC_Packet.tla", "MC_Packet.cfg", "pass"),
+                     ("Compose_WirePacket.tla", "MC_WirePacket.cfg", "pass"), ("Compose_WirePacket.tla", "MC_WirePacket_neg.cfg", "fail")]},
     parts={"quick": [("", 4)], "thorough": [("", 8)]},
     trace=("Trace_Packet.tla", "Trace_Packet.cfg"),
     nontrivial=lambda e: e.get("ev") not in ("NewW",),
